@@ -154,7 +154,7 @@ func childC15(cs *Case, _ []string) {
 	defer removeAll(pdir)
 	stop := make(chan struct{})
 	var wg sync.WaitGroup
-	var nput, nread, nack atomic.Int64
+	var nput, nread, nack, nnack atomic.Int64
 	acks := hdrVal(cs.Hdr, "acks", "1") == "1"
 	// client writers: every Put runs the observer callback that walks the session map
 	for g := 0; g < 2; g++ {
@@ -219,6 +219,19 @@ func childC15(cs *Case, _ []string) {
 						}
 					}()
 				}
+				if acks && i%4 == 0 {
+					// ... and some report gaps all the time (NegativeAcknowledge looks the session up
+					// twice and re-sends from the log), also while their session is being removed:
+					// the calls go on until the connection is closed
+					go func() {
+						for {
+							if p.nack(1) != nil {
+								return
+							}
+							nnack.Add(1)
+						}
+					}()
+				}
 				pmu.Lock()
 				ps = append(ps, p)
 				pmu.Unlock()
@@ -259,5 +272,5 @@ func childC15(cs *Case, _ []string) {
 	wg.Wait()
 	withTimeout(5*time.Second, func() { pm.Stop() })
 	withTimeout(5*time.Second, func() { pe.Close() })
-	fmt.Fprintf(os.Stderr, "CHURN-DONE puts=%d reads=%d acks=%d ended=%d rounds=%d\n", nput.Load(), nread.Load(), nack.Load(), ended, rounds)
+	fmt.Fprintf(os.Stderr, "CHURN-DONE puts=%d reads=%d acks=%d nacks=%d ended=%d rounds=%d\n", nput.Load(), nread.Load(), nack.Load(), nnack.Load(), ended, rounds)
 }
